@@ -242,7 +242,7 @@ impl TIter<DateTime<unit::Millisecond>> for &DatetimeChunked {
     fn titer(&self) -> impl TIterator<Item = DateTime<unit::Millisecond>> {
         use tea_deps::polars::prelude::{DataType, TimeUnit};
         match self.dtype() {
-            DataType::Datetime(TimeUnit::Microseconds, _) => {
+            DataType::Datetime(TimeUnit::Milliseconds, _) => {
                 // TODO(Teamon): support timezone in future
                 self.into_iter().map(|v| v.cast())
             },
